@@ -1205,5 +1205,120 @@ def main():
                       'seconds': round(time.time() - t0, 2), 'violated': bool(FAIL)}))
 
 
+
+def oracle_STUBS(rnd, budget):
+    """cross-check of the assumed contracts on dependencies (sqv/stubs.py, sqv/pymodel.py) against CPython:
+    each block states the axiom the model uses and evaluates it on concrete draws"""
+    import copy as _copy
+    import decimal
+    import math
+    import regex
+    D = Decimal
+
+    def dig(x):
+        return len(x.as_tuple().digits)
+
+    def rdec():
+        return D(rnd.randint(-10 ** rnd.randint(0, 40), 10 ** rnd.randint(0, 40))).scaleb(rnd.randint(-30, 30))
+    for _ in range(400):
+        a, b = rdec(), rdec()
+        for op in ('+', '-', '*', '/'):
+            case()
+            try:
+                r = {'+': a + b, '-': a - b, '*': a * b, '/': a / b if b else D(0)}[op]
+            except decimal.DecimalException:
+                continue
+            if dig(r) > 28:
+                fail(what='A-DEC-CTX: context arithmetic result has more than 28 digits', a=a, b=b, op=op, digits=dig(r))
+        i = rnd.randint(-10 ** 60, 10 ** 60)
+        case()
+        if dig(D(i)) != len(str(abs(i))) or D(str(i)) != D(i) or D(str(a)) != a:
+            fail(what='Decimal(int) exact / A-STR-ROUNDTRIP', i=i, a=a)
+        case()
+        if a == a.to_integral_value() or True:
+            t = int(a)
+            want = max(1, a.adjusted() + 1) if abs(a) >= 1 else 1
+            if len(str(abs(t))) != want:
+                fail(what='int(Decimal) has adj+1 digits', a=a, got=len(str(abs(t))), want=want)
+        case()
+        if dig(-a) > max(28, 0) and dig(-a) > dig(a):
+            fail(what='unary minus digits', a=a)
+        f = rnd.uniform(-1e6, 1e6)
+        case()
+        if dig(D(repr(f))) > 17 or dig(D(f)) > 767:
+            fail(what='float repr has <= 17 digits; Decimal(float) <= 767', f=f)
+    for _ in range(300):
+        l = [rnd.randint(0, 5) for _ in range(rnd.randint(0, 6))]
+        i = rnd.randint(-9, 9)
+        v = 99
+        case()
+        m = list(l)
+        m.insert(i, v)
+        n = len(l)
+        pos = (0 if i + n < 0 else i + n) if i < 0 else (n if i > n else i)
+        if m != l[:pos] + [v] + l[pos:]:
+            fail(what='list.insert clamps the position', l=l, i=i)
+        case()
+        m = list(l)
+        try:
+            x = m.pop(i)
+            j = i + n if i < 0 else i
+            if not (0 <= j < n) or x != l[j] or m != l[:j] + l[j + 1:]:
+                fail(what='list.pop removes the normalised position', l=l, i=i)
+        except IndexError:
+            j = i + n if i < 0 else i
+            if 0 <= j < n:
+                fail(what='list.pop raises IndexError only out of range', l=l, i=i)
+        case()
+        d = {}
+        ks = [rnd.choice('abcdef') for _ in range(6)]
+        for k in ks:
+            d[k] = 1
+        first = []
+        for k in ks:
+            if k not in first:
+                first.append(k)
+        if list(d) != first or list(d.keys()) != [k for k, _ in d.items()]:
+            fail(what='dict iterates in insertion order', ks=ks)
+        case()
+        nested = [[1, [2]], {'k': [3]}]
+        c = _copy.deepcopy(nested)
+        sh = _copy.copy(nested)
+        if c != nested or c[0] is nested[0] or c[0][1] is nested[0][1] or c[1]['k'] is nested[1]['k'] or sh[0] is not nested[0] or sh is nested:
+            fail(what='deepcopy shares nothing, copy shares elements')
+        case()
+        s = ''.join(rnd.choice('ab ,') for _ in range(rnd.randint(0, 12)))
+        if len(s.split(',')) > len(s) + 1 or len(s.split()) > len(s) + 1 or len(regex.findall('a|', s)) > len(s) + 1:
+            fail(what='split / findall yield at most len+1 items', s=s)
+        case()
+        if len(sorted(l)) != len(l) or sorted(sorted(l)) != sorted(l) or len(list(reversed(l))) != len(l) or len(list(enumerate(l))) != len(l):
+            fail(what='sorted/reversed/enumerate keep the length', l=l)
+    import random as _r
+    for _ in range(300):
+        case()
+        a = rnd.randint(-50, 50)
+        b = a + rnd.randint(0, 50)
+        x = _r.randint(a, b)
+        y = _r.random()
+        if not (a <= x <= b) or not (0 <= y < 1):
+            fail(what='random.randint in [a,b], random.random in [0,1)', a=a, b=b, x=x, y=y)
+    case()
+    try:
+        _r.randint(D(1), D(3))
+        fail(what='randint accepts only ints on this interpreter (model: TypeError)')
+    except TypeError:
+        pass
+    case()
+    t0 = time.time()
+    try:
+        regex.search(r'(a+)+$', 'a' * 40 + '!', timeout=0.05)
+        took = time.time() - t0
+        if took > 1.0:
+            fail(what='regex timeout not honoured', seconds=took)
+    except TimeoutError:
+        if time.time() - t0 > 1.0:
+            fail(what='regex timeout not honoured', seconds=time.time() - t0)
+
+
 if __name__ == '__main__':
     main()
